@@ -5,6 +5,8 @@ import json
 import os
 import sys
 
+# run as a script: the script's own directory (harness/) must not shadow standard-library modules
+sys.path[:] = [x for x in sys.path if os.path.abspath(x or ".") != os.path.dirname(os.path.abspath(__file__))]
 sys.path.insert(0, os.environ.get("VERIF_REPO", "/repo"))
 from mappyfile.parser import Parser  # noqa: E402
 from mappyfile.transformer import MapfileToDict  # noqa: E402
